@@ -424,12 +424,68 @@ def replay (checkC07 : Bool) (input impl : Json) : R Eng := do
   e := e.noteDiff (decide (obs = want)) s!"poll schedule: model {want.length} polls, impl {obs.length}; first difference at {(want.zip obs).find? (fun p => p.1 != p.2)}"
   pure e
 
+/-- batch-race cases (harness/c06_lin_test.go): `Accept` threads racing the event loop while it
+    works through ONE long provider answer, on a real started coordinator; the harness reports the
+    distinct outcomes per unit of work.  Model side: the episode for one unit of work "w" — state
+    after the setup acceptances (at 137 ms), thread 0 = the events of the answer that concern the
+    unit of work in answer order (events of other, unknown upkeeps are skipped without effect
+    wherever they stand, Props/C06 `unknown_events_skipped`; records of other work ids never
+    disturb a record, `other_accepts_preserve`), the other threads = the `Accept` calls, all at the
+    poll instant 1 s.  Oracle: `Spec.linOk` — every reported outcome must be the observation of
+    SOME sequential order of these operations (Props/C06 `finished_is_linearization`,
+    `finished_observation_allowed`; the lost update is rejected: `lost_update_not_linearizable`). -/
+def batchRaceReply (input impl : Json) : R Reply := do
+  let cfg ← cfgOf (← field input "cfg")
+  let uty ← natF input "uty"
+  let batch ← natF input "batch"
+  let setup ← listF asNat input "setup"
+  let threads ← listF (listOf asNat) input "threads"
+  let evsRaw ← listF (fun j => do pure ((← natF j "at"), (← natF j "ty"), (← natF j "tb"), (← natF j "cb"), (← intF j "conf"))) input "events"
+  let evsIdx := (List.range evsRaw.length).zip evsRaw
+  let placed := evsIdx.mergeSort fun a b => decide (a.2.1 * batch / 1000 ≤ b.2.1 * batch / 1000)
+  let evJobs : List Job := placed.map fun (i, _, ty, tb, cb, conf) =>
+    Job.event { workID := "w", txHash := s!"ee{i}", ttype := ty, transmitBlock := tb, checkBlock := cb, conf := conf }
+  let progs : List (List Job) := evJobs :: threads.map fun bs => bs.map (Job.accept "w")
+  if totalJobs progs > 9 then throw s!"batch-race: {totalJobs progs} operations in one episode (at most 9 are enumerated)"
+  let s1 : St := St.init 137000000
+  let s2 := setup.foldl (fun s b => (accept cfg s "w" b).1) s1
+  let s0 : St := { s2 with now := 1000000000 }
+  let utype : String → UpkeepType := fun _ => utypeOfNat (uty % 2)
+  let pr : Probes := { transmit := ← listF asNat input "probeT", process := ← listF asNat input "probeP",
+                       reaccept := ← listF asNat input "probeA" }
+  let allowed := (linOutcomes cfg utype s0 progs "w" "u" pr).eraseDups
+  let seen ← listF (fun j => do
+      let o ← field j "o"
+      let obs : RaceObs := { answers := [] :: (← listF (listOf asBool) o "ans"), transmit := ← listF asBool o "t",
+                             process := ← listF asBool o "p", reaccept := ← listF asBool o "a" }
+      pure (obs, (← natF j "n"), (← natF j "first"))) impl "outcomes"
+  let bad := seen.filter fun (o, _, _) => !(linOk cfg utype s0 progs "w" "u" pr o)
+  let total := seen.foldl (fun a x => a + x.2.1) 0
+  let nbad := bad.foldl (fun a x => a + x.2.1) 0
+  let showB (l : List Bool) : String := String.join (l.map fun b => if b then "T" else "f")
+  let showO (o : RaceObs) : String :=
+    s!"Accept answers per thread {o.answers.tail.map showB}, ShouldTransmit(w, b) for b={pr.transmit}: {showB o.transmit}, " ++
+    s!"ShouldProcess(w, b) for b={pr.process}: {showB o.process}, then Accept(w, b) for b={pr.reaccept}: {showB o.reaccept}"
+  let ok := bad.isEmpty
+  let diff := match bad with
+    | [] => ""
+    | (o, n, first) :: _ =>
+      s!"batch-race: {nbad} of {total} units of work ended with an outcome outside the {allowed.length} sequential one(s); " ++
+      s!"e.g. {n}× (first in trial {first}): {showO o}; sequential orders give: {allowed.map showO}"
+  pure { agree := ok, specModel := true, specImpl := ok, diff := diff,
+         fail := if ok then "" else "coordinator: Accept racing the processing of one batch of transmit events ended in a state / with answers that NO sequential order of the racing operations produces (lost update: a decision taken on a record read before the other operation's write was applied after it)",
+         nontrivial := decide (totalJobs progs ≥ 2 ∧ total > 0),
+         tags := ["batch-race", s!"lin:threads={threads.length}", s!"lin:events={evJobs.length}",
+                  s!"lin:sequential-outcomes={min allowed.length 4}{if allowed.length > 4 then "+" else ""}",
+                  (if allowed.length > 1 then "lin:operations-do-not-commute" else "lin:operations-commute")] }
+
 /-- stress cases on the real `util.Cache` / coordinator: `ClearExpired` racing a `Set` of an
     expired key (model side: `gc_two_phase_refines` — a write between scan and delete is
     never lost), and `Accept` racing the event loop at the poll instant (model side:
     `atomic_refines` — with both bodies atomic every schedule equals a sequential order, and
     both sequential orders of the stress end in the same state).  Expected losses: 0. -/
 def raceReply (kind : String) (input impl : Json) : R Reply := do
+  if kind == "batch-race" then return ← batchRaceReply input impl
   let trials ← natF input "trials"
   let lost ← natF impl "lost"
   let ok := decide (lost = 0)
